@@ -115,6 +115,70 @@ def _b1(prefix, tally, seed=0):
     return x.trace
 
 
+# -- B6: disciplines that modify their inputs in place need their own copies (use_deep_copy=True) ----------------
+def _inplace_classes():
+    from gemseo.core.discipline import Discipline
+
+    class Scaler(Discipline):
+        def __init__(self):
+            super().__init__(name="Scaler")
+            self.input_grammar.update_from_names(["a", "b"])
+            self.output_grammar.update_from_names(["c"])
+            self.default_input_data = {"a": np.ones(1), "b": np.ones(2)}
+
+        def _run(self, input_data):
+            b = input_data["b"]
+            b *= 2.0  # in place: legal on the discipline's own copy of the data
+            return {"c": np.array([b.sum() + input_data["a"][0]])}
+
+    class Reader(Discipline):
+        def __init__(self, name, out):
+            super().__init__(name=name)
+            self.input_grammar.update_from_names(["b"])
+            self.output_grammar.update_from_names([out])
+            self.default_input_data = {"b": np.ones(2)}
+            self.out = out
+
+        def _run(self, input_data):
+            return {self.out: input_data["b"] + 1.0}
+
+    return Scaler, Reader
+
+
+def _b6(prefix, tally, seed=0):
+    from gemseo.core.chains.parallel_chain import MDOParallelChain
+
+    Scaler, Reader = _inplace_classes()
+    x = {"a": np.array([0.5 + seed]), "b": np.array([1.0, -2.0 + seed])}
+    exp_c = np.array([2 * x["b"].sum() + x["a"][0]])
+    exp_r = x["b"] + 1.0
+    holder = {}
+
+    def body():
+        pc = MDOParallelChain([Reader("R0", "d"), Scaler(), Reader("R1", "e")], use_threading=True, n_processes=2, use_deep_copy=True)
+        holder["out"] = pc.execute({k: v.copy() for k, v in x.items()})
+
+    xx = sched.run(body, prefix, _patches(), horizon=4000)
+    choices = [[t[0], t[1]] for t in xx.trace]
+    case = {"part": "B6", "schedule": choices, "seed": seed}
+    bad = []
+    if xx.failure is not None or xx.error is not None:
+        bad.append(("parallel-chain-failure", f"{xx.failure!r} {xx.error!r}"))
+    else:
+        out = holder["out"]
+        if not np.array_equal(out["c"], exp_c):
+            bad.append(("parallel-chain-data", f"c={out['c']} expected {exp_c}"))
+        for k in ("d", "e"):
+            if not np.array_equal(out[k], exp_r):
+                bad.append(("parallel-chain-data", f"{k}={out[k]} expected {exp_r}: a discipline saw the in-place modification another one made to ITS copy of the inputs"))
+    tally.case(("B6", tuple(map(tuple, choices))), nontrivial=any(c[1] for c in choices), outcome=f"B6:{'bad' if bad else 'ok'}")
+    tally.transitions += len(xx.trace)
+    tally.traces += 1
+    for inv, msg in bad:
+        tally.violation({"invariant": inv, "part": "B6"}, case, f"{inv}: {msg}")
+    return xx.trace
+
+
 # -- B2 ---------------------------------------------------------------------------------------
 _B2_FAIL = (1,)
 _B2_KIND = "exec"
@@ -364,6 +428,9 @@ def run(ctx):
     t = Tally()
     info["B1"] = sched.explore(lambda p, tt: _b1(p, tt, ctx.seed % 3), d, t, jobs=ctx.jobs)
     tally.merge(t)
+    t = Tally()
+    info["B6"] = sched.explore(lambda p, tt: _b6(p, tt, ctx.seed % 3), d, t, jobs=ctx.jobs)
+    tally.merge(t)
     for kind in ("exec", "lin"):
         for fail in ((), (1,), (0, 2)):
             _B2_FAIL, _B2_KIND = fail, kind
@@ -401,6 +468,8 @@ def replay(case, ctx):
     part = case["part"]
     if part == "B1":
         _b1(case["schedule"], t, case.get("seed", 0))
+    elif part == "B6":
+        _b6(case["schedule"], t, case.get("seed", 0))
     elif part == "B2":
         _B2_FAIL, _B2_KIND = tuple(case["fail"]), case["kind"]
         _b2(case["schedule"], t, case.get("seed", 0))
